@@ -99,14 +99,44 @@ fn check_clear_any(c: &ClearCase, info: &mut Info) -> Result<(), String> {
     }
 }
 
+/// the same point in several representatives / negated, back to back
+#[derive(Clone, Debug, Serialize, Deserialize, PartialEq, Eq, Hash)]
+pub struct ClearSeq {
+    pub base: ClearCase,
+    pub steps: Vec<(RepR, bool)>,
+}
+
+fn clear_seq_strategy() -> BoxedStrategy<ClearSeq> {
+    (prop_oneof![3 => clear_case_strategy(0), 1 => clear_case_strategy(1)], proptest::collection::vec((rep_strategy(), any::<bool>()), 1..3)).prop_map(|(base, steps)| ClearSeq { base, steps }).boxed()
+}
+
+fn check_clear_seq(c: &ClearSeq, info: &mut Info) -> Result<(), String> {
+    let mut tmp = Info::default();
+    let mut base = c.base.clone();
+    base.check_chains = false;
+    check_clear_any(&base, &mut tmp)?;
+    for (i, (rep, neg)) in c.steps.iter().enumerate() {
+        let mut case = base.clone();
+        case.rep = rep.clone();
+        if *neg {
+            case.p = PointR::Neg(Box::new(case.p));
+        }
+        let mut tmp = Info::default();
+        check_clear_any(&case, &mut tmp).map_err(|m| format!("call #{} after clearing a related point first: {}", i + 1, m))?;
+    }
+    info.nt();
+    Ok(())
+}
+
 pub fn def() -> PropDef {
     PropDef {
         id: "C17",
         rule: "points of the full curve groups E(Fq), E'(Fq2): identity, subgroup points, uniform full-curve points, points of each small prime order dividing the cofactor, of order l*r, negated, same-y, in generated Jacobian representatives; a second point for additivity. Oracle: model [h_eff]P with h_eff = 1 - x resp. 3(x^2-1)h2 computed from x, model subgroup test, additivity with the model law, chain_z(P) = [|x|]P and chain_h2_eff(P) = [3(x^2-1)h2]P through the hook wrappers on a third of the cases. Non-trivial = P outside the order-r subgroup; distinct = distinct cases",
         needs_pairing: false,
         subs: vec![
-            Box::new(Sub { name: "g1-clear-h", rule: "G1 clear_h vs model [0xd201000000010001]P", quick: 4_500, thorough: 40_000, strategy: || boxed(clear_case_strategy(0)), check: check_clear_any }),
-            Box::new(Sub { name: "g2-clear-h", rule: "G2 clear_h vs model [3(x^2-1)h2]P", quick: 900, thorough: 8_000, strategy: || boxed(clear_case_strategy(1)), check: check_clear_any }),
+            Box::new(Sub { name: "g1-clear-h", rule: "G1 clear_h vs model [0xd201000000010001]P", quick: 3_000, thorough: 40_000, strategy: || boxed(clear_case_strategy(0)), check: check_clear_any }),
+            Box::new(Sub { name: "related-sequences", rule: "the same point in other representatives / negated, cleared back to back, each compared with the model", quick: 300, thorough: 15_000, strategy: || boxed(clear_seq_strategy()), check: check_clear_seq }),
+            Box::new(Sub { name: "g2-clear-h", rule: "G2 clear_h vs model [3(x^2-1)h2]P", quick: 500, thorough: 8_000, strategy: || boxed(clear_case_strategy(1)), check: check_clear_any }),
         ],
         assumptions: {
             let mut v = COMMON_ASSUMPTIONS.to_vec();
